@@ -99,6 +99,7 @@ func famCancel(w *World, c *Case, rng *rand.Rand) {
 			if how == "deadline" {
 				s.Timeout = 30 * time.Minute
 			}
+			s.CtxCause = rng.Intn(2) == 0
 		}
 	}
 	if tgt == nil {
